@@ -6,6 +6,7 @@ from ..djproj import Project
 
 ROUTER = '''
 ROUTES = %r
+CATCH_ALL = %r
 
 
 class Router(object):
@@ -17,7 +18,8 @@ class Router(object):
             # a model allowed on both databases is read and written on `default`
             db = self._db(model._meta.model_name)
             return 'default' if db == 'both' else db
-        return None
+        # no rule for this model (Django Evolution's own models among them)
+        return 'default' if CATCH_ALL else None
 
     db_for_write = db_for_read
 
@@ -88,7 +90,7 @@ def replay(rec, idx=0):
     for m, d in route.items():
         routes[m.lower()] = d
         routes[m.lower() + '2'] = d
-    project = Project(['shop'], dbs=('default', 'other'), router=ROUTER % routes, tag='route')
+    project = Project(['shop'], dbs=('default', 'other'), router=ROUTER % (routes, bool(rec.get('catchAll'))), tag='route')
     out = {'steps': [], 'errors': []}
     try:
         models = {m: {'fields': {'id', 'name'}, 'maxlen': 20} for m in ('A', 'B', 'C')}
